@@ -41,6 +41,7 @@ func Kill() error {
 }
 
 func Exit(s string) {
+	verifExit(s)
 	fmt.Printf(s + "\n")
 	os.Exit(1)
 }
